@@ -431,9 +431,31 @@ class DefUse:
 
     def sym_place(self, p, depth=0):
         fn = self.fn
+        if depth > 40:
+            return ('?',)
         fields = tuple(str(e.get('name', e.get('i'))) for e in p['pr'] if e['k'] == 'field')
         if any(e['k'] == 'index' for e in p['pr']):
             return ('?',)
+        # look through a single-definition reference / tuple: `(*r)` with `r = &x`, `t.0` with `t = (a, b)` (the lowering of assert_eq!)
+        ds = self._success_defs(p['l'])
+        whole = [(bb, si) for bb, si in ds if si is not None and not fn.blocks[bb]['stmts'][si]['p']['pr']]
+        if len(ds) == 1 and len(whole) == 1:
+            rv = fn.blocks[whole[0][0]]['stmts'][whole[0][1]]['rv']
+            pr = list(p['pr'])
+            if rv['k'] in ('ref', 'rawptr') and pr and pr[0]['k'] == 'deref':
+                q = {'l': rv['p']['l'], 'pr': list(rv['p']['pr']) + pr[1:]}
+                return self.sym_place(q, depth + 1)
+            if rv['k'] == 'agg' and rv.get('ak') in ('tuple', 'adt') and pr and pr[0]['k'] == 'field' and rv.get('ops') is not None:
+                idx = pr[0].get('i')
+                if idx is None:
+                    names = rv.get('fields') or []
+                    idx = names.index(pr[0].get('name')) if pr[0].get('name') in names else None
+                if idx is not None and idx < len(rv['ops']):
+                    o = rv['ops'][idx]
+                    q = op_place(o)
+                    if q is None:
+                        return self.sym(o, depth + 1) if len(pr) == 1 else ('?',)
+                    return self.sym_place({'l': q['l'], 'pr': list(q['pr']) + pr[1:]}, depth + 1)
         base = self.sym_local(p['l'], depth + 1, want_fields=fields)
         if not fields:
             return base
@@ -711,6 +733,13 @@ def result_switch(fn, call_bb, facts=None):
             cur = nt['dest']['l']
             bb = nt['target']
             via = 'try'
+            continue
+        # an adaptor that keeps Ok as Ok and Err as Err (`.map_err(Error::Io)`): the discrimination of its result is the discrimination of ours
+        if nt['k'] == 'call' and nt['args'] and op_local(nt['args'][0]) == cur and not nt['dest']['pr'] and nt['target'] is not None \
+                and last_seg(strip_generics(callee_path(nt) or '')) in ('map_err', 'or_else_err', 'map_err_into') \
+                and not any(st['k'] == 'assign' and st['p']['l'] == cur for st in fn.blocks[bb]['stmts']):
+            cur = nt['dest']['l']
+            bb = nt['target']
             continue
         # a plain move of the value into another local, then continue in the same / next block
         moved = None
